@@ -47,6 +47,7 @@ type World struct {
 	pendingVals []pendingVal
 	hsConsumer string // consumer the current handshake step concerns
 	ObsOn bool
+	poolAddr string
 	Obs   []ObsRec
 }
 
@@ -115,6 +116,7 @@ func NewWorld(t testing.TB, cfg Config) *World {
 	ccvtypes.VerifFailFn = w.onFail
 	w.ObsOn = obsDefault
 	w.P = w.newProvider(t, cfg)
+	w.poolAddr = w.P.PApp.ProviderKeeper.GetConsumerRewardsPoolAddressStr(w.P.GetContext())
 	return w
 }
 
